@@ -79,6 +79,7 @@ type e2Merged struct {
 	violations []*e2Violation
 	aborted    int
 	eventLogs  []string
+	watchdogs  []string
 }
 
 func runProbeWorkers(s *prep.Scratch, probe string, o opts, cases int, maxS float64, race bool, extra ...string) *e2Merged {
@@ -124,9 +125,16 @@ func runProbeWorkers(s *prep.Scratch, probe string, o opts, cases int, maxS floa
 				go func() { done <- cmd.Wait() }()
 				select {
 				case <-done:
-				case <-time.After(time.Duration(maxS*2+300) * time.Second):
+				case <-time.After(time.Duration(maxS+150) * time.Second):
+					// the worker hangs in something the simulation does not control: its range is given up; what the
+					// other workers found still counts, and if nobody found anything the check ends with exit 2
 					_ = cmd.Process.Kill()
-					fatal2("probe worker %d exceeded its watchdog; output:\n%s", k, eb.String())
+					<-done
+					mu.Lock()
+					m.watchdogs = append(m.watchdogs, fmt.Sprintf("probe worker %d (cases %d..%d) exceeded its watchdog; output:\n%s", k, from, to, tailStr(eb.String(), 1500)))
+					mu.Unlock()
+					fmt.Printf("NOTE: probe worker %d did not finish cases %d..%d within its watchdog: range given up\n", k, from, to)
+					return
 				}
 				b, rerr := os.ReadFile(out)
 				if rerr != nil {
@@ -464,6 +472,9 @@ func report2(o opts, s *prep.Scratch, probe string, g genOut, m1 *merged, m2 *e2
 	}
 	if len(notReproduced) > 0 && known == 0 {
 		fatal2("%s", strings.Join(notReproduced, "\n"))
+	}
+	if len(m2.watchdogs) > 0 {
+		fatal2("%s", strings.Join(m2.watchdogs, "\n"))
 	}
 	return 0
 }
